@@ -40,6 +40,28 @@ CLAIMED = {
              'The written-dataset theorem is stated for the spectroscopic shape; the position shape is covered by the transpose theorem of the '
              'builder plus the correspondence run.',
         technique='Coq proof (mixed-radix digits, induction on lists) + in-Coq correspondence evaluation'),
+    'C09': dict(
+        text='Coq theorems for grids with any number of dimensions, sizes >= 1, in ANY storage permutation (spectroscopic shape, not more '
+             'dimensions than points): the computed order is a permutation that ranks all dimensions of size >= 2 exactly fastest->slowest '
+             '(ties only among size-1 dimensions), reported sizes = number of distinct indices = dimension sizes, closed form of the cyclic '
+             'change count, and the grid described by the computed order is the stored grid. get_unit_values / create_spec_inds_from_vals / '
+             'accessors are modelled as written and validated against the code in coqc; an independent oracle judges every output.',
+        design='5/C09',
+        note='Trusted: Coq kernel, numpy unique/where/diff/argsort as mirrored, harness. Partial: unit-value extraction and values->indices '
+             'rebuild have executable models tied by correspondence but no grid theorem yet. Open known findings: every place where the '
+             'orientation of a matrix is guessed from its shape fails for as many / more dimensions than points (listed per call site).',
+        technique='Coq proof (change-count counting lemma, sorted-permutation uniqueness) + in-Coq correspondence evaluation'),
+    'C10': dict(
+        text='Executable Coq model of reshape_from_n_dims as written (type/size/rank/shape checks, squeezed-side escape, one-sided construction of '
+             'the missing matrix, axis swap from the sort orders) validated in coqc against the real function on round trips (numpy/dask/h5py), '
+             'one-sided calls, permuted-size / wrong-size / other-factorisation N-D arrays and squeezed singleton sides; the independent oracle '
+             'demands the exact original matrix or an exception. Theorems so far: the C01/C09 grid theorems this function relies on plus '
+             'rejection lemmas; the inverse theorem from_nd (to_nd x) = x is not yet proved (partial).',
+        design='5/C10',
+        note='Trusted: Coq kernel, numpy transpose/reshape semantics, harness. Partial: inverse theorem pending; three genuine defects found and '
+             'fixed (singleton side, permuted shape accepted, weak one-sided guard); open findings for one-sided calls whose missing side has '
+             'a size-1 dimension and for matrices with dims >= points.',
+        technique='Coq executable model + in-Coq correspondence evaluation + Coq lemmas (partial proof)'),
     'C14': dict(
         text='Coq theorems (unbounded in ranks, pending-list length, batch limit, processor names) about rank ranges, batch windows and '
              'socket masters; the integer kernels are regenerated from process.py by a fail-closed ast translator on every run, '
